@@ -32,10 +32,9 @@ def feq(a, b):
 def run(ctx: core.Ctx):
     fl = core.import_fuzzylite()
     G = 32 if ctx.quick else 128
-    cfg = write_cfg("MC_Hedges", f"SPECIFICATION Spec\nCONSTANTS G = {G}\n  Emit = FALSE\n" + "".join(f"INVARIANT {i}\n" for i in INVS) + "CHECK_DEADLOCK FALSE\n")
-    ctx.expect_holds(ctx.tlc("MC_Hedges", cfg, workers=8), "MC_Hedges")
-    cfg = write_cfg("Gen_Hedges", f"SPECIFICATION Spec\nCONSTANTS G = {G}\n  Emit = TRUE\nINVARIANT EmitInv\nCHECK_DEADLOCK FALSE\n")
-    g = ctx.tlc("MC_Hedges", cfg, workers=1)
+    cfg = write_cfg("MC_Hedges", f"SPECIFICATION Spec\nCONSTANTS G = {G}\n  Emit = TRUE\n" + "".join(f"INVARIANT {i}\n" for i in INVS) + "INVARIANT EmitInv\nCHECK_DEADLOCK FALSE\n")
+    g = ctx.tlc("MC_Hedges", cfg, workers=8)
+    ctx.expect_holds(g, "MC_Hedges")
     if len(g.emitted) != 6 * (G + 1):
         raise MachineryError(f"expected {6 * (G + 1)} rows, got {len(g.emitted)}")
     hs = {n: fl.settings.factory_manager.hedge.construct(n) for n in NAMES}
